@@ -3371,6 +3371,17 @@ fn fnmatch_to_regex(pattern: &str) -> String {
                             class.push(esc);
                         }
                     }
+                    // a POSIX character class like [:alpha:] is copied up to its own ":]"
+                    if ch == '[' && chars.peek() == Some(&':') {
+                        let mut previous = ch;
+                        for c in chars.by_ref() {
+                            class.push(c);
+                            if previous == ':' && c == ']' {
+                                break;
+                            }
+                            previous = c;
+                        }
+                    }
                 }
 
                 if closed {
